@@ -193,6 +193,37 @@ def _bulk_answer(fn):
     return clause
 
 
+
+# ---- the same statement as a BOUNDED check on real caches (runs whatever the body looks like): a bulk load fills every wanted tile
+# with the bytes stored for ITS OWN address (level included) and reports success iff none is missing
+def _gen_bulk_load(gen, rng):
+    pool = [(0, 0, 0), (0, 0, 1), (1, 1, 1), (1, 1, 2), (127, 127, 8), (127, 127, 9), (128, 127, 9), (127, 128, 9), (128, 128, 9),
+            (5, 5, 3), (5, 6, 3), (255, 255, 9), (256, 255, 10), (0, 1, 1)]
+    stored = rng.sample(pool, rng.randint(0, 7))
+    wanted = rng.sample(pool, rng.randint(0, 5))
+    return {'self': {'$cls': '$compact_cache', 'version': rng.choice([1, 2]), 'stored': [list(c) for c in stored]},
+            'tiles': {'$cls': '$tile_list', 'coords': [list(c) for c in wanted]}}
+
+
+def _bulk_load_is_per_address(args, result):
+    """after load_tiles every wanted tile holds the bytes of the latest store to exactly its address (level, column, row) or nothing
+    if that address was never stored; the answer is True iff nothing is missing"""
+    from mapproxy.cache.tile import Tile
+    from contracts.builders import _tile_bytes
+    cache, ok = args['self'], True
+    for t in args['tiles']:
+        one = Tile(t.coord)
+        have = cache.load_tile(one)
+        want = one.source.as_buffer().read() if have else None
+        if want is not None and want != _tile_bytes(t.coord):
+            return False
+        got = t.source.as_buffer().read() if t.source is not None else None
+        if got != want:
+            return False
+        ok = ok and have
+    return bool(result) == bool(ok)
+
+
 for _fn, _skip, _inv_skip in (
         ('store_tiles', lambda ex, st, t: ex.truth(st, ex.opaque_field(st, t, 'stored')), 'tiles[j].stored'),
         ('load_tiles', lambda ex, st, t: __import__('z3').Or(ex.truth(st, ex.opaque_field(st, t, 'source')),
@@ -212,7 +243,9 @@ for _fn, _skip, _inv_skip in (
                     1: dict(types={'failed': 'bool', 'missing': 'bool'},
                             inv=['implies(_k == 0, not %s)' % ('failed' if _fn == 'store_tiles' else 'missing')],
                             body_trace=[_one_by_one(_fn)])},
-             trace=[_fast_path_single_bundle(_skip), _bulk_answer(_fn)])
+             trace=[_fast_path_single_bundle(_skip), _bulk_answer(_fn)],
+             **(dict(ensures=[_bulk_load_is_per_address], fuzz_gen=_gen_bulk_load, bounded=dict(n=400, seconds=10))
+                if _fn == 'load_tiles' else {}))
 
 
 # ---- v2 load / remove -------------------------------------------------------------------------------------------------------
